@@ -10,6 +10,7 @@ from vlib import gen, observe, pdbio, common, refs
 from vlib.pdbio import Atom
 
 PROPERTY = "C07"
+REDUCE_KEYS = [["pdb", "edited"]]
 LEVEL = "exploration"
 RULE = ("corpus-derived structures (segments / balls of the reference proteins, threaded mutations, relabelled chains, "
         "library ligands and ions) x 1-3 edits drawn from: ignorable residues inserted as HETATM or ATOM at any residue "
